@@ -78,6 +78,7 @@ enum POp {
     Query(u8, i64, i32),
     Thread(u8, i64),
     Swap(u8, u8),
+    CloneFrom(u8, u8, u8),
 }
 
 #[derive(Serialize, Deserialize, Debug, Clone)]
@@ -110,6 +111,7 @@ fn lower(p: &Program) -> Vec<Op> {
             POp::Query(i, t, n) => Op::Query(s(i), t, n),
             POp::Thread(i, t) => Op::Thread(s(i), t),
             POp::Swap(a, b) => Op::Swap(s(a), s(b)),
+            POp::CloneFrom(a, b, v) => Op::CloneFrom(s(a), s(b), v % 3),
         })
         .collect()
 }
@@ -127,7 +129,8 @@ fn strat_program(threads: bool) -> BoxedStrategy<Program> {
         2 => (slot.clone(), slot.clone()).prop_map(|(a, b)| POp::Eq(a, b)),
         7 => (slot.clone(), t.clone(), 0i32..1_000_000_000).prop_map(|(i, t, n)| POp::Query(i, t, n)),
         (if threads { 2 } else { 0 }) => (slot.clone(), t).prop_map(|(i, t)| POp::Thread(i, t)),
-        1 => (slot.clone(), slot).prop_map(|(a, b)| POp::Swap(a, b)),
+        1 => (slot.clone(), slot.clone()).prop_map(|(a, b)| POp::Swap(a, b)),
+        2 => (slot.clone(), slot, 0u8..3).prop_map(|(a, b, v)| POp::CloneFrom(a, b, v)),
     ];
     // motif: create a heap-backed zone, clone it, drop one of the two handles
     // (either one), then query the survivor
